@@ -15,7 +15,7 @@ import FqModel.Recover
   verdicts
     * property predicate (independent of the model): the observation is not `panic:…`.
       A panic is answered `PROPFAIL <fmt>:<function>:<kind> …` (`KNOWN …` only for the keys of `knownKeys`,
-      the defect classes with status "known" in known_findings.json — none at present).
+      the defect classes with status "known" in known_findings.json).
     * correspondence: `decodeGroup` run on the outcome vector the observation claims (k recoverable
       failures, then a success or nothing) must give exactly that observation (class, k, i, v);
       `corePrim` must predict the class of a core case. Otherwise DIVERGE.
@@ -58,10 +58,10 @@ def checkObs (obs : String) : String :=
 def isPanic (obs : String) : Bool := obs.startsWith "panic:"
 def isResource (obs : String) : Bool := obs.startsWith "resource:"
 
-/-- keys of defect classes that are recorded as status "known" in known_findings.json (none at present:
-    every panic found so far has been fixed in /repo, so a panic — also the return of a fixed one — is a
-    falsified property: PROPFAIL) -/
-def knownKeys : List String := []
+/-- keys of defect classes that are recorded as status "known" in known_findings.json. Every other panic —
+    also the return of one of the 13 that were fixed in /repo — is a falsified property: PROPFAIL.
+    Remove a key here when its entry is flipped to "fixed". -/
+def knownKeys : List String := ["mp4:mp4.decodeBox:nil-dereference"]
 
 def knownVerdict (obs : String) : String :=
   let key := (obs.drop 6).toString
